@@ -522,3 +522,14 @@ fn process_undelegations(
 
     Ok(undelegated_msgs)
 }
+
+// verification hook (guarded; no effect unless --cfg kryptonitedao_krp_staking_contracts_verif)
+#[cfg(kryptonitedao_krp_staking_contracts_verif)]
+pub fn verif_calculate_new_withdraw_rate(
+    amount: Uint128,
+    withdraw_rate: Decimal,
+    total_unbonded_amount: Uint256,
+    slashed_amount: SignedInt,
+) -> Decimal {
+    calculate_new_withdraw_rate(amount, withdraw_rate, total_unbonded_amount, slashed_amount)
+}
